@@ -201,8 +201,12 @@ def finish(rep: Report, max_replays_per_sig=4):
         else:
             unconfirmed.append((scen, sig, len(cs), last_out[-400:]))
 
+    seen_known = {}
     for k, c, path in known_hits:
-        print(f"KNOWN-FINDING: property={rep.pid} {k['what']} [scenario={c['scenario']} label={c['label']}]")
+        seen_known.setdefault(k["id"], []).append((k, c, path))
+    for kid, hits in seen_known.items():
+        k, c, path = hits[0]
+        print(f"KNOWN-FINDING: property={rep.pid} {k['what']} [id={kid}; {len(hits)} scenario signature(s), e.g. scenario={c['scenario']} label={c['label']}; replay={path}]")
     for c, path in violations:
         print(f"VIOLATION property={rep.pid} replay={path}")
         print(f"  scenario={c['scenario']} label={c['label']} info={c.get('info')}")
